@@ -101,6 +101,11 @@ def handle : Handler := fun j a => do
   let gb := jIntOr j "goroutines_before" 0
   let ga := jIntOr j "goroutines_after" 0
   if ga > gb + 4 then a := a.violationSig "C20:goroutines-left-behind" s!"{gb} -> {ga} in {ctx}"
+  -- goroutines of stopped daemons that are blocked for ever (virtual time cannot wake them): a leak, named by creation site
+  let lo := jStrOr j "leftover_goroutines" ""
+  if lo != "" then
+    let site := (((lo.splitOn "remain ").getD 1 "?").splitOn " x").headD "?"
+    a := a.violationSig s!"C20:goroutines-left-behind:{site}" s!"{lo.take 400} in {ctx}"
   let conns ← j.getObjVal? "conns"
   for h in strList j "all" do
     -- every daemon keeps at most 3 connections per server (SetMaxOpenConns(3)); one-shot probes must be closed
